@@ -237,7 +237,7 @@ def random_test_spec(rng, i, tok, *, allow_no_start=False):
     elif spec["form"] == "exc":
         spec["token"] = tok("X")
     elif spec["form"] == "reason":
-        spec["reason"] = tok("R")
+        spec["reason"] = tok("R") if rng.random() < 0.85 else ""     # an explicitly empty reason is a reason
     if rng.random() < 0.5:
         spec["t0"] = rng.randrange(len(TIMES))
     if rng.random() < 0.5:
